@@ -127,7 +127,7 @@ theorem algRunForks_quiet {a b : Raw K Unit} {la lb : List (K × Unit)} (hra : R
     refine Quiet.bind (algRunForks_quiet hra hrb hlen fs (fun g hg => hf g (List.mem_cons_of_mem _ hg)))
       (fun _ _ => Quiet.pure trivial)
 
-theorem algScript_quiet (dbg : K → String) {a b : Raw K Unit} {la lb : List (K × Unit)} (hra : Rep a la)
+theorem algScript_quiet (dbg : Bool → K → String) {a b : Raw K Unit} {la lb : List (K × Unit)} (hra : Rep a la)
     (hrb : Rep b lb) (hlen : a.len + b.len = la.length + lb.length) :
     ∀ (cs : List IterCmd) (it : AlgIt) (forks : List AlgIt),
       AlgInv la.length lb.length it → meas it ≤ la.length + lb.length →
@@ -167,7 +167,7 @@ theorem algScript_quiet (dbg : K → String) {a b : Raw K Unit} {la lb : List (K
       refine Quiet.bind (algFold_quiet F hra hrb it hi) (fun _ _ => ?_)
       exact Quiet.bind (algScript_quiet dbg hra hrb hlen [] it forks hi hm hf) (fun _ _ => Quiet.pure trivial)
 
-theorem algOp_quiet (dbg : K → String) (kind : AlgKind) {a b : Raw K Unit} {la lb : List (K × Unit)}
+theorem algOp_quiet (dbg : Bool → K → String) (kind : AlgKind) {a b : Raw K Unit} {la lb : List (K × Unit)}
     (hra : Rep a la) (hrb : Rep b lb) (script : List IterCmd) :
     Quiet (algOp F dbg kind a b script) (fun _ => True) := by
   unfold algOp
